@@ -284,9 +284,16 @@ def sym_index(c, kind, name, extent, tensor_len=None):
         return VSlice(NONE, NONE, NONE)
     if kind == "tensor":
         P = sym_tensor(name, [tensor_len], sort="int")
-        k = z3.Int("k!q")
         f = P.meta["uf"]
-        c.assume(z3.ForAll([k], z3.And(f(k) >= -extent, f(k) < extent), patterns=[f(k)]))
+
+        def elem(idx):
+            # every entry is a valid index for the dim (ground instance of the universal precondition,
+            # added at each term the entry is evaluated at -- keeps all VCs quantifier-free)
+            v = f(*idx)
+            c.ctx.assume(z3.And(v >= -extent, v < extent))
+            return v
+
+        P.elem = elem
         return P
     raise AssertionError(kind)
 
@@ -361,6 +368,13 @@ def getitem_spec(c, d, idxv, bs, n, t):
     # result shape of the event part
     for p, (dd, ext) in enumerate(zip(edims, rv.event_extents())):
         c.prove(f"getitem.event_extent[{p}]", dd.size == ext)
+    # the covariance handed to the constructor is square with exactly one row/column per selected entry
+    nev = z3.IntVal(1)
+    for dd in edims:
+        nev = nev * dd.size
+    c.prove("getitem.cov_extent[row]", rv.cov.dims[-2].size == nev)
+    c.prove("getitem.cov_extent[col]", rv.cov.dims[-1].size == nev)
+    c.prove("getitem.cov_batch_rank", z3.BoolVal(len(rv.cov.dims) - 2 <= len(bdims)))
     c.prove("getitem.cov.elem", got == want)
 
 
